@@ -1,11 +1,13 @@
 //! Harness for the formatting-layer properties: C13 C14 C20.
 mod c13;
+mod c14;
 mod c20;
 
 fn main() {
     let args = mc::parse_args();
     let code = match args.property.as_str() {
         "C13" => c13::run(&args),
+        "C14" => c14::run(&args),
         "C20" => c20::run(&args),
         "DBG13" => { c13::debug_shape(); 0 }
         p => {
